@@ -40,8 +40,38 @@ def wellformed(ui, nchars):
     return None
 
 
+# typographic look-alikes of ASCII characters (what they mean is not stated; the tokens around them keep their positions)
+LOOKALIKES = ['\u2212', '\u00a0', '\u00d7', '\u2026', '\u2009', '\u00f7', '\u201c12\u201d', '\u2013']
+PERCENT_NUMBERS = ['12.500,75', '1.250,5', '1.000.000', '12,5', '7', '1.000', '2.345.678,25', '100', '0,5', '10.000,125']
+
+
+def percent_line(rng):
+    """a percentage whose number carries thousands groups and / or a fraction: the Number token covers all of it"""
+    p_, n_ = rng.choice(PERCENT_NUMBERS), rng.choice(['10', '200', '1.500', '80,5'])
+    lead = rng.choice(['', '', ' ', 'çay '])
+    form = rng.randrange(5)
+    if form == 0:
+        parts = [(p_, 'Number'), ('% of ', None), (n_, 'Number')]
+    elif form == 1:
+        parts = [('%', None), (p_, 'Number'), (' of ', None), (n_, 'Number')]
+    elif form == 2:
+        parts = [(n_, 'Number'), (' ', None), ('+', 'Operator'), (' ', None), (p_, 'Number'), ('%', None)]
+    elif form == 3:
+        parts = [('oran ', None), ('=', 'Operator'), (' ', None), (p_, 'Number'), ('%', None)]
+    else:
+        parts = [(n_, 'Number'), (' ', None), ('-', 'Operator'), (' %', None), (p_, 'Number')]
+    line, spans = lead, []
+    for text, kind in parts:
+        if kind:
+            spans.append((len(line), len(line) + len(text), kind))
+        line += text
+    return line, spans
+
+
 def structured(rng):
     """-> (line, [(start, end, kind)]) with character offsets"""
+    if rng.random() < 0.1:
+        return percent_line(rng)
     tree = ge.gen_tree(rng, rng.randint(1, 3), {'suffix': False, 'deep_paren': False, 'juxt': rng.random() < 0.3, 'group_sign': False})
     toks = ge.lex_tokens(tree, DEFAULT_SEP, grouped=rng.random() < 0.3)
     pieces = []   # (text, kind or None)
@@ -51,6 +81,8 @@ def structured(rng):
     for i, (k, t) in enumerate(toks):
         if rng.random() < 0.15:
             pieces.append((rng.choice(WORDS), None))
+        elif i and rng.random() < 0.06:
+            pieces.append((rng.choice(LOOKALIKES), None))
         if k == 'num':
             if t[0].isdigit() and rng.random() < 0.12:
                 # a based literal is a number literal too: its token covers the prefix and the digits
